@@ -171,6 +171,20 @@ class SparkSQLModel(data_algebra.db_model.DBModel):
             sql_formatters=SparkSQL_formatters,
         )
 
+    def quote_string(self, string: str) -> str:
+        """
+        Quote a string value. Spark SQL reads backslash escapes inside string literals
+        (and, before Spark 4, reads a doubled quote as two adjacent literals).
+        """
+        assert isinstance(string, str)
+        return (
+            self.string_quote
+            + string.replace("\\", "\\\\").replace(
+                self.string_quote, "\\" + self.string_quote
+            )
+            + self.string_quote
+        )
+
     # noinspection PyMethodMayBeStatic
     def execute(self, conn, q):
         """
